@@ -264,14 +264,14 @@ func c12ListScope(r *Run, e *Effect, edsKey, ersKey, oldDSKey string) {
 			case "namespace":
 				if _, isConst := constString(o.ns); isConst {
 					nsDetail = "namespace is a constant"
-				} else if dependsOn(o.ns, namespaceLike) {
+				} else if r.Prog.dependsOnIP(o.ns, namespaceLike) {
 					hasNS = true
 				} else {
 					nsDetail = "namespace does not derive from an object's namespace"
 				}
 			case "labels":
 				for k, v := range o.entries {
-					if (k == edsKey || k == ersKey) && dependsOn(v, nameLike) {
+					if (k == edsKey || k == ersKey) && r.Prog.dependsOnIP(v, nameLike) {
 						hasLabel = true
 					}
 				}
@@ -373,7 +373,7 @@ func c12OwnerRefFilter(r *Run, e *Effect, oldDSKey string, record bool) bool {
 					if !f.Pol {
 						continue
 					}
-					sets, okFlag := ff.FlagTrueFacts(f.V, ap.Block())
+					sets, okFlag := r.Prog.trueAlternatives(fn, f.V, ap.Block(), 0)
 					if !okFlag || len(sets) == 0 {
 						continue
 					}
@@ -384,16 +384,18 @@ func c12OwnerRefFilter(r *Run, e *Effect, oldDSKey string, record bool) bool {
 						})
 						nameOK := s.any(true, func(v ssa.Value, _ string) bool {
 							return isEqCompare(v, loadOfPath(nil, "Name"), func(x ssa.Value) bool {
-								ex, isE := x.(*ssa.Extract)
-								if !isE {
-									return false
-								}
-								l, isL := ex.Tuple.(*ssa.Lookup)
-								if !isL {
-									return false
-								}
-								s, okc := constString(l.Index)
-								return okc && s == oldDSKey
+								return r.Prog.dependsOnIP(x, func(y ssa.Value) bool {
+									ex, isE := y.(*ssa.Extract)
+									if !isE {
+										return false
+									}
+									l, isL := ex.Tuple.(*ssa.Lookup)
+									if !isL {
+										return false
+									}
+									s, okc := constString(l.Index)
+									return okc && s == oldDSKey
+								})
 							})
 						})
 						if !kindOK || !nameOK {
@@ -495,23 +497,21 @@ func c12Constructor(r *Run, e *Effect, reach map[*ssa.Function]bool, seen map[*s
 		n := 0
 		ok := true
 		detail := ""
-		for _, b := range ctor.Blocks {
-			for _, in := range b.Instrs {
-				st, isSt := in.(*ssa.Store)
-				if !isSt {
-					continue
-				}
-				fa, isFA := st.Addr.(*ssa.FieldAddr)
-				if !isFA || fieldName(fa) != "Namespace" {
-					continue
-				}
-				n++
-				root, p := accessPath(st.Val)
-				_, isP := root.(*ssa.Parameter)
-				if !(isP && len(p) > 0 && p[len(p)-1] == "Namespace") {
-					if c, isC := unwrap(st.Val).(*ssa.Call); !(isC && strings.HasSuffix(calleeName(&c.Call), ".GetNamespace")) {
+		for _, cf := range r.Prog.calleesWithin(ctor, 2) {
+			for _, b := range cf.Blocks {
+				for _, in := range b.Instrs {
+					st, isSt := in.(*ssa.Store)
+					if !isSt {
+						continue
+					}
+					fa, isFA := st.Addr.(*ssa.FieldAddr)
+					if !isFA || fieldName(fa) != "Namespace" {
+						continue
+					}
+					n++
+					if _, isC := constString(st.Val); isC || !r.Prog.dependsOnIP(st.Val, namespaceLike) {
 						ok = false
-						detail = "Namespace stored from " + st.Val.String()
+						detail = "Namespace stored from " + st.Val.String() + " in " + shortFunc(cf)
 					}
 				}
 			}
